@@ -46,9 +46,9 @@ var c04Check = &impCheck{
 	bfsDepth: [2]int{4, 5},
 	dev:      [2]int{3, 4},
 	fams: []*family{
-		{name: "wrappers", ctors: []string{"NewFile"}, paths: []string{"a/f", "b/f", "fmt", "x/dot"}, names: c04Names(),
+		{name: "wrappers", ctors: []string{"NewFile"}, paths: []string{"a/f", "b/f", "fmt", "x/dot", "app/vendor/a/f"}, names: c04Names(), canon: []string{"a/f", "x/other"},
 			aliases: []string{"f", ".", "_"}, prefixes: []string{"pkg"}, maxRefs: 3, freeRefs: 2, wrappers: allWrappers, anon: true, extra: true, bigHints: c04BigHints},
-		{name: "local", ctors: []string{"NewFilePath", "NewFilePathName"}, local: "a.b/c", paths: []string{"a.b/c", "a.b/c/x", "fmt"}, names: map[string]string{"a.b/c/x": "x"},
+		{name: "local", ctors: []string{"NewFilePath", "NewFilePathName"}, local: "a.b/c", paths: []string{"a.b/c", "a.b/c/x", "fmt"}, names: map[string]string{"a.b/c/x": "x"}, canon: []string{"a.b/c/x", "a.b/c"},
 			aliases: []string{"."}, prefixes: []string{"pkg"}, maxRefs: 3, freeRefs: 3, wrappers: allWrappers, anon: true, extra: true},
 		{name: "cgo", ctors: []string{"NewFile"}, paths: []string{"C", "fmt", "a/c"}, names: map[string]string{"a/c": "c"},
 			aliases: []string{"c"}, prefixes: []string{"pkg"}, maxRefs: 3, freeRefs: 3, wrappers: []int{0, imp.WrapperIndex("dictkey-nullvalue")}, anon: true, extra: true,
@@ -60,7 +60,7 @@ func init() {
 	register(&Check{ID: "C04", Level: "model_checking", Run: func(r *ev.Recorder) {
 		r.Rule = "(1) explicit-state BFS over one real File (constructor NewFilePath): references to 4 paths (one of them the local path) in 4 positions (plain, Dict key whose value is Null(), Dict value whose key is Null(), Dict value), " +
 			"ImportName, ImportAlias(p, \".\"), ImportAlias(p, \"_\"), Anon, PackagePrefix, in every order up to the depth bound, de-duplicated on a reflection dump of the File. " +
-			"(2) canonical pre-render histories for 3 path families (all 14 reference positions incl. three that must render nothing; hint tables of 12 mostly unused paths; anonymous imports; local path; cgo with 0-2 preamble blocks) with a bounded number of non-default settings. " +
+			"(2) canonical pre-render histories for 3 path families (all 14 reference positions incl. three that must render nothing; hint tables of 12 mostly unused paths; anonymous imports; local path; a vendored copy of a referenced path; CanonicalPath set to a referenced path; cgo with 0-2 preamble blocks) with a bounded number of non-default settings. " +
 			"Oracle on the parsed output: the multiset of import specs equals {paths of rendered references (except the local path)} + {anonymous imports} (+ \"C\" when a preamble exists), each exactly once; cross-checked by go/types (no 'imported and not used', no undefined). " +
 			"distinct_nontrivial = distinct outputs of files that contain a reference or hint that must not produce an import"
 		r.Assume = []string{"Anon on a path that is also referenced is counted once (the reference wins)", "histories beyond the depth / deviation bounds are outside the bound"}
